@@ -3,12 +3,25 @@ import TongoProofs.Lemmas.TlCompact
 import TongoGen.LiteApi
 import TongoGen.TlLength
 import TongoProofs.Lemmas.GenTiesB
+import TongoProofs.Lemmas.TlBindings
+import TongoGen.TlBindingsAll
 /-! Property C10 — the lite-server bindings speak exactly the wire format of `lite_api.tl`.
 
 `Gen.liteApi` is the schema of the CURRENT `liteclient/lite_api.tl` (translator X3, regenerated on every run, tied to
 the raw file by `Gen.liteapi_render` and by the run-time op `tl.schema`). The theorems instantiate the schema-level
 semantics (C09) at that schema and add the lite-client layer: request envelope, request decoder table, hand-written
-codecs. The Go bindings are tied to this model by the correspondence ops `tl.*` (props/C10.py). -/
+codecs.
+
+The Go bindings enter the theorems through translator X7 (`harness/cmd/extract/tlbindings.go`): every generated
+`MarshalTL`/`UnmarshalTL`, every `(*Client).LiteServer*` method and the table `taggedRequestDecodeFunctions` of the CURRENT
+liteclient/generated.go become the Lean value `Gen.tlBindings` (step sequences with their guards `(t.Flag>>bit)&1`, tag
+literals, request-id literals); `Tl.Bind.marshalGo/unmarshalGo/runMarshal/runUnmarshal/clientRequest/clientAnswer/
+decoderTable` give these steps a semantics; `steps_eq_schema` is proved once for every schema and every bindings value the
+decidable matcher `agreeAll` accepts; the matcher is discharged by the kernel on every run, one obligation per type and per
+function (`Gen.bind_type_i`, `Gen.bind_func_i`, collected in `Gen.bindings_agree`). What stays outside the theorems: the
+translator itself (trusted; it refuses every statement outside the shapes it knows), the reflection-based helpers
+`tl.Marshal/tl.Unmarshal` on builtin types, `liteServerRequest`, and the hand-written codecs — tied by the correspondence
+ops `tl.*` (props/C10.py). -/
 namespace Tongo.C10
 open Tongo Tongo.Tl Tongo.Gen
 
@@ -185,6 +198,65 @@ theorem liteapi_functions_covered :
   simp only [Bool.and_eq_true] at h
   exact h.2
 
+
+/-! ### The generated Go bindings (translator X7, `Gen.tlBindings`) -/
+
+/- `steps_eq_schema` and `method_steps_eq_schema` (generic in the schema and in the extracted bindings) are stated in
+TongoProofs/C09.lean; here they are instantiated at the regenerated schema and the regenerated bindings. -/
+
+/-- regenerated obligation (75 kernel-decided obligations, one per type and per function of lite_api.tl): the bindings
+extracted from the current generated.go match the schema of the current lite_api.tl -/
+theorem liteapi_bindings_agree : Bind.agreeAll liteApi tlBindings = true := bindings_agree
+
+/-- `steps_eq_schema` for the CURRENT generated.go against the CURRENT lite_api.tl -/
+theorem liteapi_steps_eq_schema (ty : Ty) (v : Val) (bs : Bytes) (fuel : Nat) (hty : ty ≠ .tru)
+    (hrefs : Bind.tyRefsOk liteApi tlBindings ty = true) (henc : encode liteApi ty v = some bs)
+    (hfuel : 3 * v.depth ≤ fuel) :
+    Bind.marshalGo tlBindings fuel (Bind.goTyOf ty) (Bind.rep liteApi ty v) = some bs ∧
+    (∀ rest, Bind.unmarshalGo tlBindings fuel (Bind.goTyOf ty) (bs ++ rest) = .ok (Bind.rep liteApi ty v, rest)) ∧
+    (∀ rest, decode liteApi fuel ty (bs ++ rest) = .ok (v, rest)) :=
+  C09.steps_eq_schema liteApi tlBindings wf_liteapi bindings_agree ty v bs fuel hty hrefs henc hfuel
+
+/-- **request wrappers**: for every function `f` of lite_api.tl, the payload the generated method
+`(*Client).<CamelCase f>` hands to `liteServerRequest` — its request-id literal, then `MarshalTL` of its request struct —
+is `encodeRequest liteApi f ps`, the bytes `request_table_sound` and `request_envelope` speak about -/
+theorem liteapi_client_request (f : String) (d : Decl) (hf : liteApi.func? f = some d) (ps : List Val) (bs : Bytes)
+    (fuel : Nat) (henc : encodeRequest liteApi f ps = some bs) (hfuel : 3 * depthList ps + 2 ≤ fuel) :
+    ∃ m, tlBindings.methods.find? (fun m => m.name == Bind.camelGo f) = some m ∧
+      Bind.clientRequest tlBindings fuel m (.tuple (Bind.repFields liteApi d.fields ps)) = some bs :=
+  Bind.client_request_eq bindings_agree f d hf ps bs fuel henc hfuel
+
+theorem liteapi_error_single : Bind.tyRefsOk liteApi tlBindings (.bare errorCtor) = true := by decide +kernel
+
+/-- **answers**: for every function `f` of lite_api.tl, the generated method returns (1) for the encoding of ANY value of
+the result type, followed by anything, the Go value carrying that value (tag literal of a single-constructor result, or
+the sum type's `switch tag`); (2) for the encoding of any `liteServer.error`, that error (error literal tested first) -/
+theorem liteapi_client_answer (f : String) (d : Decl) (hf : liteApi.func? f = some d) (fuel : Nat) (rest : Bytes) :
+    ∃ m, tlBindings.methods.find? (fun m => m.name == Bind.camelGo f) = some m ∧
+      (∀ c fs bs, encode liteApi (.boxed d.result) (.sum c fs) = some bs → 3 * depthList fs + 5 ≤ fuel →
+        Bind.clientAnswer tlBindings fuel m (bs ++ rest)
+          = .ok (.result (Bind.rep liteApi (.boxed d.result) (.sum c fs)))) ∧
+      (∀ evs eb, encodeFields liteApi errorDecl.fields [] evs = some eb → 3 * depthList evs + 5 ≤ fuel →
+        Bind.clientAnswer tlBindings fuel m (le 4 errorDecl.id ++ eb ++ rest)
+          = .ok (.serverError (.tuple (Bind.repFields liteApi errorDecl.fields evs)))) := by
+  obtain ⟨m, hm, h1, h2⟩ := Bind.client_answer_eq wf_liteapi bindings_agree f d errorDecl hf liteapi_error_decl
+    liteapi_error_single fuel rest
+  refine ⟨m, hm, fun c fs bs henc hfuel => h1 c fs bs henc hfuel ?_, h2⟩
+  intro cd hcd
+  have hmem : d ∈ liteApi.funcs := List.mem_of_find?_eq_some hf
+  have hall := liteapi_no_error_id_clash
+  simp only [List.all_eq_true, bne_iff_ne, ne_eq] at hall
+  exact hall d hmem cd (Bind.mem_ctorsOf_of_ctorOf hcd).2.2
+
+/-- **decoder table**: `taggedRequestDecodeFunctions` of the current generated.go, applied to the bytes of any call of a
+lite_api.tl function (followed by anything), selects the entry of that function, which reports the function's id and
+name and returns the parameters through the request struct's `UnmarshalTL` -/
+theorem liteapi_decoder_table (f : String) (d : Decl) (hf : liteApi.func? f = some d) (ps : List Val) (bs rest : Bytes)
+    (fuel : Nat) (henc : encodeRequest liteApi f ps = some bs) (hfuel : 3 * depthList ps + 2 ≤ fuel) :
+    Bind.decoderTable tlBindings fuel (bs ++ rest)
+      = .ok (d.id, some (f, .tuple (Bind.repFields liteApi d.fields ps))) :=
+  Bind.decoder_table_eq wf_liteapi bindings_agree f d hf ps bs rest fuel henc hfuel
+
 /-! ### The regenerated schema value and its constructor ids
 
 Translator X3 emits the declarations in compact form (`DeclC`: names as character codes) so that the kernel can render
@@ -256,7 +328,10 @@ theorem ctor_id_is_crc32_counterexample :
 
 /-! ### Hand-written codecs -/
 
-/-- `ton.AccountID.MarshalTL`, `ton.BlockIDExt.MarshalTL` and `tl.Int256.MarshalTL` produce the schema encoding of
+/-- (hand models `accountIdTL`, `blockIdExtTL`, one line each, tied to the Go code by the ops `tl.hw.*` only — these three
+codecs are NOT extracted; `LiteServerSignatureSet` of liteclient/extensions.go IS extracted and covered by
+`liteapi_steps_eq_schema`; `tlb.VmStack.MarshalTL` has no theorem, only the oracle `go.tl.hw.vmstack`.)
+`ton.AccountID.MarshalTL`, `ton.BlockIDExt.MarshalTL` and `tl.Int256.MarshalTL` produce the schema encoding of
 `liteServer.accountId`, `tonNode.blockIdExt` (both declared so in lite_api.tl) and `int256` -/
 theorem handwritten_types_spec :
     (accountIdDecl ∈ liteApi.types ∧ blockIdExtDecl ∈ liteApi.types) ∧
@@ -274,6 +349,56 @@ theorem handwritten_types_spec :
     simp [encode, ha, accountIdDecl, encodeFields, present?, hw, hl, accountIdTL]
   · intro wc shard seqno root file hw hs hq hr hf
     simp [encode, hb, blockIdExtDecl, encodeFields, present?, hw, hs, hq, hr, hf, blockIdExtTL]
+
+/-- decode sides of the hand-written codecs: `(*ton.AccountID).UnmarshalTL`, `(*ton.BlockIDExt).UnmarshalTL` and
+`(*tl.Int256).UnmarshalTL` read back what the Marshal sides write (for `AccountID`/`Int256`: followed by anything, leaving
+the rest; `BlockIDExt` takes a slice of exactly 80 bytes and refuses every other length) — and that is what the schema
+decoder returns for the declarations `liteServer.accountId` / `tonNode.blockIdExt` of lite_api.tl -/
+theorem handwritten_types_decode :
+    (∀ wc (addr rest : Bytes), wc < 2 ^ 32 → addr.length = 32 →
+      accountIdUnTL (accountIdTL wc addr ++ rest) = .ok ((wc, addr), rest) ∧
+      ∀ fuel, 2 ≤ fuel → decode liteApi fuel (.bare "liteServer.accountId") (accountIdTL wc addr ++ rest)
+        = .ok (.tuple [.num wc, .raw addr], rest)) ∧
+    (∀ wc shard seqno (root file : Bytes), wc < 2 ^ 32 → shard < 2 ^ 64 → seqno < 2 ^ 32 → root.length = 32 →
+      file.length = 32 →
+      blockIdExtUnTL (blockIdExtTL wc shard seqno root file) = .ok (wc, shard, seqno, root, file) ∧
+      ∀ fuel, 2 ≤ fuel → decode liteApi fuel (.bare "tonNode.blockIdExt") (blockIdExtTL wc shard seqno root file)
+        = .ok (.tuple [.num wc, .num shard, .num seqno, .raw root, .raw file], [])) ∧
+    (∀ data : Bytes, data.length ≠ 80 → blockIdExtUnTL data = .err "invalid data length") ∧
+    (∀ bs rest : Bytes, bs.length = 32 → int256UnTL (bs ++ rest) = .ok (bs, rest)) := by
+  obtain ⟨_, ha, hb, _⟩ := handwritten_types_spec
+  refine ⟨?_, ?_, fun data h => by simp [blockIdExtUnTL, h], fun bs rest h => readN_append' 32 bs rest h⟩
+  · intro wc addr rest hw hl
+    refine ⟨?_, fun fuel hf => ?_⟩
+    · simp [accountIdUnTL, accountIdTL, readLE4 wc _ hw, readN_append' 32 addr rest hl]
+    · exact liteapi_decode_encode _ _ _ rest fuel (ha wc addr hw hl) (by simp [Val.depth, depthList]; omega)
+  · intro wc shard seqno root file hw hs hq hr hf
+    refine ⟨?_, fun fuel hfu => ?_⟩
+    · have hlen : (blockIdExtTL wc shard seqno root file).length = 80 := by
+        simp [blockIdExtTL, le_length, hr, hf]
+      have e1 : (blockIdExtTL wc shard seqno root file).take 4 = le 4 wc := by
+        simp only [blockIdExtTL, List.append_assoc]; exact bytes_take_app _ _ 4 (le_length 4 wc)
+      have d1 : (blockIdExtTL wc shard seqno root file).drop 4 = le 8 shard ++ (le 4 seqno ++ (root ++ file)) := by
+        simp only [blockIdExtTL, List.append_assoc]; exact bytes_drop_app _ _ 4 (le_length 4 wc)
+      have d2 : (blockIdExtTL wc shard seqno root file).drop 12 = le 4 seqno ++ (root ++ file) := by
+        have : (blockIdExtTL wc shard seqno root file).drop 12 = ((blockIdExtTL wc shard seqno root file).drop 4).drop 8 := by
+          simp
+        rw [this, d1]; exact bytes_drop_app _ _ 8 (le_length 8 shard)
+      have d3 : (blockIdExtTL wc shard seqno root file).drop 16 = root ++ file := by
+        have : (blockIdExtTL wc shard seqno root file).drop 16 = ((blockIdExtTL wc shard seqno root file).drop 12).drop 4 := by
+          simp
+        rw [this, d2]; exact bytes_drop_app _ _ 4 (le_length 4 seqno)
+      have d4 : (blockIdExtTL wc shard seqno root file).drop 48 = file := by
+        have : (blockIdExtTL wc shard seqno root file).drop 48 = ((blockIdExtTL wc shard seqno root file).drop 16).drop 32 := by
+          simp
+        rw [this, d3]; exact bytes_drop_app _ _ 32 hr
+      simp only [blockIdExtUnTL, hlen, ne_eq, not_true_eq_false, if_false, e1, d1, d2, d3, d4,
+        bytes_take_app _ _ 8 (le_length 8 shard), bytes_take_app _ _ 4 (le_length 4 seqno), bytes_take_app _ _ 32 hr,
+        List.take_of_length_le (Nat.le_of_eq hf), unLe_le 4 wc (by simpa using hw), unLe_le 8 shard (by simpa using hs),
+        unLe_le 4 seqno (by simpa using hq)]
+    · have := liteapi_decode_encode _ _ _ [] fuel (hb wc shard seqno root file hw hs hq hr hf)
+        (by simp [Val.depth, depthList]; omega)
+      simpa using this
 
 /-! ### the length prefix of `bytes`/`string`: regenerated Go code against the model -/
 
@@ -298,5 +423,21 @@ example : encodeRequest liteApi "liteServer.getTime" [] = some [0x34, 0x5a, 0xad
 example : (encodeRequest liteApi "liteServer.lookupBlock"
     [.num 2, .tuple [.num 0xffffffff, .num 0x8000000000000000, .num 7], .num 9, .absent]).isSome = true := by
   decide +kernel
+
+/-- non-vacuity of `liteapi_steps_eq_schema`: a value of `liteServer.transactionId` (three conditional fields, bits 0 and 2
+set, bit 1 clear) satisfies its hypotheses, so the generated `LiteServerTransactionIdC.MarshalTL` steps write its schema
+encoding and the `UnmarshalTL` steps read it back (a test on a literal value, not a proof about all inputs) -/
+def exTxId : Val := .tuple [.num 5, .raw (List.replicate 32 7), .absent, .raw (List.replicate 32 9)]
+
+example : (encode liteApi (.bare "liteServer.transactionId") exTxId).isSome = true ∧
+    Bind.tyRefsOk liteApi tlBindings (.bare "liteServer.transactionId") = true := by decide +kernel
+
+example (bs : Bytes) (h : encode liteApi (.bare "liteServer.transactionId") exTxId = some bs) :
+    Bind.marshalGo tlBindings 9 (.named "LiteServerTransactionIdC") (Bind.rep liteApi (.bare "liteServer.transactionId") exTxId)
+      = some bs ∧
+    ∀ rest, Bind.unmarshalGo tlBindings 9 (.named "LiteServerTransactionIdC") (bs ++ rest)
+      = .ok (Bind.rep liteApi (.bare "liteServer.transactionId") exTxId, rest) := by
+  have := liteapi_steps_eq_schema (.bare "liteServer.transactionId") exTxId bs 9 (by decide) (by decide +kernel) h (by decide)
+  exact ⟨this.1, this.2.1⟩
 
 end Tongo.C10
